@@ -212,6 +212,17 @@ func tail(s []string, n int) []string {
 	return s
 }
 
+// Drain discards pending park/done events (after the caller synchronised by other means, e.g. polling Parked()).
+func (c *Ctl) Drain() {
+	for {
+		select {
+		case <-c.events:
+		default:
+			return
+		}
+	}
+}
+
 func (c *Ctl) Find(name string) *k3thread {
 	c.mu.Lock()
 	defer c.mu.Unlock()
